@@ -269,3 +269,81 @@ Theorem fxrem_step_Z : forall n d b, lu_ok n -> u64 d -> u64 b -> luval n < b ->
   lu_ok (C09_Callers.fxrem_step n d b) /\ luval (C09_Callers.fxrem_step n d b) = (luval n * M64 + d) mod b.
 Proof. exact CallersProofs.fxrem_step_Z. Qed.
 Print Assumptions fxrem_step_Z.
+
+(** ROUND 3 — the INTERACTION of the pass with the unused-rest-parameter analysis (simplify.c:160-205 usedp /
+    sexp_rest_unused_p; the analysis itself is C03's).  The analysis runs at code generation, on the SIMPLIFIED lambda
+    (vm.c:719), while the set-vars list that decides what the procedure prologue boxes (vm.c:699-707) was computed by
+    analyze BEFORE the pass.  C09/Rest.v: [usedp], [rest_unused] (the analysis as repaired by
+    fixes/C09-unused-rest-stale-set-vars.patch: a rest parameter listed in the set-vars is never flagged), and
+    [rest_unused_old] (the pinned code: looks at the body only). *)
+From ChibiV Require Import C09.Sem3 C09.Rest C09.RestProofs.
+
+(** the pass never INTRODUCES a use of a variable: parameter deletion, propagation (literals only), folding, branch
+    selection and statement dropping only remove references — a rest parameter unused before the pass is unused after it *)
+Theorem usedp_simplify : forall e x l S il, usedp x l (simplify e S il) = true -> usedp x l e = true.
+Proof. exact RestProofs.usedp_simplify. Qed.
+Print Assumptions usedp_simplify.
+
+(** a variable that no code uses is irrelevant for evaluation (SPEC = Sem3.eval3): the two environments may differ
+    arbitrarily at that key — bound on one side, absent on the other — result, output and store correspond ([vsame]:
+    equal data; closures over code not using the key whose environments correspond away from the key) *)
+Theorem unused_irrelevant : forall x l fuel e r r' s s' o v s1 o1,
+  usedp x l e = false -> envsame x l r r' -> storesame x l s s' ->
+  eval3 fuel e r s o = Some (v, s1, o1) ->
+  exists v' s1', eval3 fuel e r' s' o = Some (v', s1', o1) /\ vsame x l v v' /\ storesame x l s1 s1'.
+Proof. exact RestProofs.unused_irrelevant. Qed.
+Print Assumptions unused_irrelevant.
+
+(** hence what the VM does for a procedure flagged SEXP_PROC_UNUSED_REST — it does not build the rest list and the
+    frame has no slot for it — is sound for every lambda the REPAIRED analysis flags (after whatever the pass did to its
+    body): not binding the rest parameter at all gives the same result, output and store, with no box allocated for it *)
+Theorem unused_rest_elided : forall id fixed rp sv body fuel ws ws' w rc rc' s s' o v s1 o1,
+  rest_unused (Lam id (fixed ++ [rp]) true sv body) = true -> length ws = length fixed ->
+  Forall2 (vsame rp id) ws ws' -> envsame rp id rc rc' -> storesame rp id s s' ->
+  (let '(r3, s3) := bind3 id sv (fixed ++ [rp]) (ws ++ [w]) rc s in eval3 fuel body r3 s3 o) = Some (v, s1, o1) ->
+  exists v' s1', (let '(r3, s3) := bind3 id sv fixed ws' rc' s' in eval3 fuel body r3 s3 o) = Some (v', s1', o1)
+                 /\ vsame rp id v v' /\ storesame rp id s1 s1'.
+Proof. exact RestProofs.unused_rest_elided. Qed.
+Print Assumptions unused_rest_elided.
+
+(** the defect of the pinned analysis (repaired by the patch): the pass removes the only assignment to a rest parameter
+    (dead branch), the old analysis then flags the lambda although its set-vars still list the parameter — the prologue
+    boxes a slot that the elided frame does not have (store layouts differ); the repaired analysis does not flag it *)
+Theorem stale_set_vars_defect_refuted :
+  wf L_defect = true /\ rest_unused_old (simplify L_defect [] true) = true /\ memZ 11 [11] = true /\
+  snd (bind3 1 [11] [10; 11] [V3C (CInt 1); V3C NIL] [] []) <> snd (bind3 1 [11] [10] [V3C (CInt 1)] [] []) /\
+  rest_unused (simplify L_defect [] true) = false.
+Proof. exact (conj RestProofs.defect_wf (conj RestProofs.defect_old_flags (conj RestProofs.defect_still_boxed (conj RestProofs.defect_frames_differ RestProofs.defect_repaired)))). Qed.
+Print Assumptions stale_set_vars_defect_refuted.
+
+(** ROUND 3 — (B) rest parameters, non-constant data and multiple call arities INSIDE the SPEC: C09/Sem3.v [eval3] =
+    Sem2 + rest parameters (a lambda with the rest flag takes at least its fixed parameters, the surplus arguments are
+    collected into a fresh list bound — boxed when assigned — to the last parameter; EVERY lambda is a first-class
+    closure, callable with any argument count it accepts), immutable pairs and vectors as values (cons car cdr pair?
+    null? vector-ref vector-length as never-folded opcodes, list / vector / length / the output procedure as global
+    procedures), output of any closure-free datum.  What the theorem says about the pass's parameter deletion
+    (simplify.c:68 `sexp_length(params) == sexp_length(args)`, the rest parameter not counted): with exactly as many
+    arguments as FIXED parameters the constant-bound fixed parameters are deleted and the rest parameter stays and
+    receives the empty list on both sides; with any other count nothing is deleted.  Values are related by [vrel3]
+    (equal constants, pairs and vectors componentwise, closures whose bodies are the simplified bodies under the
+    substitution in force), stores pointwise.  Still `_partial` in name only for the older statement above; this one
+    leaves outside: mutation of pairs/vectors/strings, call/cc, dynamic-wind, multiple values. *)
+From ChibiV Require Import C09.Sem3Proofs.
+
+Theorem simplify_sound_data : forall fuel e S r r' s s' o v s1 o1,
+  wf e = true -> C1 S e -> C2 S e -> ~ In 0 (sdom S) -> envrel3 S r r' -> storerel3 s s' ->
+  eval3 fuel e r s o = Some (v, s1, o1) ->
+  exists v' s1', eval3 fuel (simplify e S true) r' s' o = Some (v', s1', o1) /\ vrel3 v v' /\ storerel3 s1 s1'.
+Proof. exact Sem3Proofs.simplify_sound_data. Qed.
+Print Assumptions simplify_sound_data.
+
+(** whole programs: the observable result (a closure-free datum, or "holds a procedure") and the output are unchanged *)
+Theorem simplify_sound_program3 : forall fuel e res o,
+  wf e = true -> run3 fuel e = Some (res, o) -> run3 fuel (simplify e [] true) = Some (res, o).
+Proof. exact Sem3Proofs.simplify_sound_program3. Qed.
+Print Assumptions simplify_sound_program3.
+
+(** related values print alike (closures: not printable on either side) *)
+Theorem vrel3_data : forall v v', vrel3 v v' -> data_of v = data_of v'.
+Proof. exact Sem3Proofs.vrel3_data. Qed.
+Print Assumptions vrel3_data.
